@@ -164,7 +164,8 @@ Begin(s, from) ==
                                                      address the constructor resolves (auto-created) or None
      [a |-> "Exec4", from, ct, f4, init]             component level (immediate caller type ct)
      [a |-> "CreateExternal", from, init]
-     [a |-> "Invoke", from, to, prog]                                                              *)
+     [a |-> "Invoke", from, to, prog]
+     [a |-> "Retire", from]                          Settle + Collect of the youngest payment channel       *)
 Do(s, c) ==
   LET b    == Begin(s, c.from)
       fail == [ok |-> FALSE, S |-> b, res |-> <<>>, rid |-> 0, robust |-> None]
@@ -194,6 +195,15 @@ Do(s, c) ==
                   THEN [fail EXCEPT !.res = <<[Attempt(i, "ext", s.act[i].seq, "-", c.init, a, NoDeploy) EXCEPT !.kept = FALSE]>>]
                   ELSE IF r.ok THEN [ok |-> TRUE, S |-> r.S, res |-> <<at>> \o r.res, rid |-> r.id, robust |-> r.rob]
                   ELSE [fail EXCEPT !.res = <<[at EXCEPT !.kept = FALSE]>>]
+    [] c.a = "Retire" ->
+         \* two messages of the sender (paych.Settle, then -- after the settling delay -- paych.Collect) that
+         \* delete its youngest payment channel: the actor disappears, its id and addresses stay taken
+         LET ps == {i \in Ids(s) : s.act[i].code = "paych"}
+             b2 == Begin(b, c.from)
+         IN  IF ps = {} THEN [fail EXCEPT !.S = b2]
+             ELSE LET p == CHOOSE i \in ps : \A j \in ps : j <= i IN
+                  [ok |-> TRUE, S |-> [b2 EXCEPT !.act = [i \in DOMAIN @ \ {p} |-> @[i]]], res |-> <<>>,
+                   rid |-> p, robust |-> None]
     [] c.a = "Invoke" ->
          LET t == IdOf(b, c.to) IN
          IF ~Runs(b, t) THEN [ok |-> TRUE, S |-> b, res |-> <<>>, rid |-> 0, robust |-> None]
@@ -285,10 +295,10 @@ NoOverwrite ==
                \/ (S.act[i].code = "evm" /\ S.act[i].tomb # 0)      \* dead: destroyed by an earlier message
        ELSE Res[k].id \in NewIds
   /\ \A j, k \in 1..Len(Res) : (j # k /\ KeptOK(j) /\ KeptOK(k)) => Res[j].f4 # Res[k].f4
-\* actors do not vanish (nothing in this subsystem deletes), and a contract that was not (re)deployed
+\* actors do not vanish (except a collected payment channel), and a contract that was not (re)deployed
 \* by this message keeps its code; a dead contract stays dead
 Incarnation ==
-  /\ Ids(S) \subseteq Ids(S')
+  /\ \A i \in Ids(S) \ Ids(S') : last'.a = "Retire" /\ last'.ok /\ last'.rid = i /\ S.act[i].code = "paych"
   /\ \A i \in Ids(S) : (S.act[i].code = "evm" /\ ~DeployedHere(i)) =>
         /\ S'.act[i].hc = S.act[i].hc
         /\ (S.act[i].tomb # 0 => S'.act[i].tomb = 2)
@@ -309,7 +319,8 @@ NonceRules ==
 SeqRules ==
   \A i \in Ids(S) \cap Ids(S') :
      S'.act[i].seq = S.act[i].seq +
-        (IF ~Builtin(last'.from) /\ Exists(S, last'.from) /\ S.amap[last'.from] = i THEN 1 ELSE 0)
+        (IF ~Builtin(last'.from) /\ Exists(S, last'.from) /\ S.amap[last'.from] = i
+         THEN (IF last'.a = "Retire" THEN 2 ELSE 1) ELSE 0)
 
 \* "Contract addresses follow Ethereum's CREATE and CREATE2 formulas from the deployer's address and
 \*  nonce or salt": the derivation recorded for every attempt is the one of ITS deployer and inputs
